@@ -1,5 +1,7 @@
 package main
 
+import "os"
+
 // splitmix64: every random choice of the harness derives from one state seeded by VERIF_SEED,
 // so a case is reproducible from (seed, stream, index).
 type rng struct{ s uint64 }
@@ -30,3 +32,13 @@ func (r *rng) intn(n int) int {
 func (r *rng) bool() bool { return r.next()&1 == 1 }
 
 func (r *rng) pick(n int) int { return r.intn(n) }
+
+// noteCase records what the harness is about to execute, so that the driver can name the input
+// when the process dies in a way recover() cannot catch (stack overflow, out of memory)
+func noteCase(stream, what string) {
+	path := os.Getenv("VERIF_LASTCASE")
+	if path == "" {
+		return
+	}
+	_ = os.WriteFile(path, []byte(stream+"\n"+what), 0o644)
+}
